@@ -254,6 +254,7 @@ var (
 	zzPLocalAny  = zzPat{raw: "http://localhost:*", scheme: "http", host: "localhost", port: -1}
 	zzPLoop4     = zzPat{raw: "http://127.0.0.1:9090", scheme: "http", host: "127.0.0.1", port: 9090}
 	zzPLoop6     = zzPat{raw: "http://[::1]:9090", scheme: "http", host: "::1", port: 9090}
+	zzPIP6b      = zzPat{raw: "http://[1::1]:9090", scheme: "http", host: "1::1", port: 9090, insecure: true} // shares the byte suffix "::1" with the loopback address
 	zzPOther     = zzPat{raw: "zz://c", scheme: "zz", host: "c", insecure: true}
 	zzPShare     = zzPat{raw: "https://xa.b", scheme: "https", host: "xa.b"}
 	zzPDot       = zzPat{raw: "https://a.b.", scheme: "https", host: "a.b."}
